@@ -114,10 +114,29 @@ func (ex *Exec) call(f *Frame, st *State, x *ssa.Call, b *ssa.BasicBlock, i int,
 	if k := strings.LastIndex(short, "."); k >= 0 {
 		short = short[k+1:]
 	}
-	if f.con != nil && f.depth == 0 {
-		cas := append(append([]Clause(nil), f.con.CallAsserts[fmt.Sprintf("%s#%d", short, ord)]...), f.con.CallAsserts[short+"#*"]...)
+	if ex.con != nil && len(ex.con.CallAsserts) > 0 {
+		// release points are anchored on the ordinal of the call across the unit's
+		// inline tree, so they also fire inside inlined helpers
+		uord := ord
+		if n, ok := ex.unitOrd[f.chain+fmt.Sprintf("%p", x)]; ok {
+			uord = n
+		} else if f.depth > 0 {
+			uord = -1
+		}
+		cas := append(append([]Clause(nil), ex.con.CallAsserts[fmt.Sprintf("%s#%d", short, uord)]...), ex.con.CallAsserts[short+"#*"]...)
+		if uord < 0 {
+			cas = nil
+		}
 		for k, c := range cas {
 			ec := ex.ectx(f, st)
+			if f.depth > 0 && ex.root != nil {
+				// names of the unit's own frame stay visible inside an extracted helper
+				for k2, v2 := range ex.ectx(ex.root, st).vars {
+					if _, own := ec.vars[k2]; !own {
+						ec.vars[k2] = v2
+					}
+				}
+			}
 			for pn, pb := range ex.paramBindings(callee, sig, c0.IsInvoke(), args) {
 				// the caller's names win (a recursive call has the same parameter names)
 				if _, own := ec.vars[pn]; !own || strings.HasPrefix(pn, "arg") {
@@ -136,7 +155,7 @@ func (ex *Exec) call(f *Frame, st *State, x *ssa.Call, b *ssa.BasicBlock, i int,
 			if lbl == "" {
 				lbl = fmt.Sprint(k + 1)
 			}
-			ex.oblige(f, st, "assert", fmt.Sprintf("%s#assert:%s#%d#%s", ex.name, short, ord, lbl), t, x.Pos(), c.Src)
+			ex.oblige(f, st, "assert", fmt.Sprintf("%s#assert:%s#%d#%s", ex.name, short, uord, lbl), t, x.Pos(), c.Src)
 		}
 	}
 	wantInline := false
@@ -160,6 +179,7 @@ func (ex *Exec) call(f *Frame, st *State, x *ssa.Call, b *ssa.BasicBlock, i int,
 		}
 		ex.inlined[name]++
 		nf := ex.newFrame(callee, f, f.depth+1, f.prefix+"#inl:"+short)
+		nf.chain = f.chain + fmt.Sprintf("%p", x) + "/"
 		nf.sweep = inlSweep
 		nf.limit = f.limit
 		for k, p := range callee.Params {
@@ -261,6 +281,11 @@ func (ex *Exec) checkRequires(f *Frame, st *State, x ssa.Instruction, con *Contr
 		invoke = ci.Common().IsInvoke()
 	}
 	vars := ex.paramBindings(callee, sig, invoke, args)
+	for k, pn := range con.ParamNames {
+		if b, ok := vars[fmt.Sprintf("arg%d", k)]; ok && pn != "_" {
+			vars[pn] = b
+		}
+	}
 	ec := ex.calleeCtx(f, st, nil, callee, vars)
 	short := name
 	if k := strings.LastIndex(short, "."); k >= 0 {
